@@ -56,8 +56,10 @@ impl TryFrom<&Value> for Coord {
 
 impl Hash for Coord {
     fn hash<H: std::hash::Hasher>(&self, state: &mut H) {
-        self.lat.to_bits().hash(state);
-        self.long.to_bits().hash(state);
+        // `0.0` and `-0.0` are equal, they have to hash the same
+        let normalize = |value: f64| if value == 0.0 { 0.0 } else { value };
+        normalize(self.lat).to_bits().hash(state);
+        normalize(self.long).to_bits().hash(state);
     }
 }
 
